@@ -16,6 +16,14 @@ CLAIMED = {
             "TimeIntervalScheduler / StepIntervalScheduler / PeriodicSaveCondition under a scripted clock on generated cases and comparing traces inside Coq; the same oracle is evaluated on the implementation's traces.",
             "Trusted: Coq kernel + vm_compute; the hand-written model (coq/Model/Sched.v); the scripted-clock runner; exact float arithmetic on dyadic ticks. The theorem is about the model; the code is tied to it only on the sampled cases.",
             "DESIGN.md §4 C15"),
+    "C11": ("Coq theorems over an executable buffer model (random draws as oracle arguments) + black-box contract oracle proved on the model and evaluated on the real buffers",
+            "Machine-checked proof that for every buffer class (plain / dict, any non-empty key set), capacity >= 1, rational probability, and every sequence of add/get/len/"
+            "mutate-returned/save+load with any admissible random draws, the model obeys the contract oracle (sequential = last max_size in order; random-replacement: bound, fill order, "
+            "at most one slot changes to the added sample, replaced when draw < p, kept when draw > p and always when p = 0, only added samples, keys aligned, wrong keys rejected unchanged, "
+            "copies returned, len = data, save/load keeps content, whole documented parameter range accepted). Tied to /repo by running the four public classes with scripted random on generated cases; "
+            "outputs compared with the model and checked by the same oracle inside Coq.",
+            "Trusted: Coq kernel + vm_compute; coq/Model/Buffers.v; the runner's scripted `random` stub and view canonicalisation; pickle round trip. Theorems are about the model.",
+            "DESIGN.md §4 C11"),
 }
 REASON_TODO = "not claimed at this commit: model and correspondence for this property are not built yet (plan in DESIGN.md §4)"
 
